@@ -35,10 +35,19 @@ Allowed == {<<"ok", "ok">>, <<"diag", "na">>, <<"notimpl", "na">>}
 \*                                    security methods exist only on *Server / *Client
 \*   Dev_PatternResponsesSameSchema   4XX and 5XX responses with the same $ref schema: one
 \*                                    wrapper type, two cases in the encoder's type switch
+\*   Dev_RecursiveOptionalNullableBox optional nullable member referring to the enclosing
+\*                                    schema: checkStructRecursions boxes it as a pointer to
+\*                                    an Opt generic that is never declared
 ShapeWitness(shape) ==
   CASE shape = "webhook_security" -> {"Dev_WebhookSecurityMethods"}
     [] shape = "pattern_responses_same_schema" -> {"Dev_PatternResponsesSameSchema"}
+    [] shape = "recursive_optional_nullable" -> {"Dev_RecursiveOptionalNullableBox"}
     [] OTHER -> {}
+\*   Dev_SiblingNameCollision         two names of one scope whose Go identifiers coincide
+\*                                    ("+$" and "+*" both become Plus): properties are checked
+\*                                    for this ("conflict: field ... already defined"), the
+\*                                    headers of one response are not
+SiblingCollisionScopes == {"respheader"}
 CollisionWitness(scope) ==
   CASE scope \in {"schema", "security"} -> {"Client", "Handler", "OperationName", "Route", "Server"}
     [] scope = "property" -> {"Decode", "Encode"}
